@@ -155,7 +155,8 @@ func Addition(left, right value.Value) error {
 				return errors.WithStack(fmt.Errorf("FLOAT literal could not add to RTIME"))
 			}
 			rv := value.Unwrap[*value.Float](right)
-			lv.Value += time.Duration(rv.Value) * time.Second
+			// FLOAT is the number of seconds, keep the fraction
+			lv.Value += time.Duration(rv.Value * float64(time.Second))
 		case value.RTimeType: // RTIME += RTIME
 			rv := value.Unwrap[*value.RTime](right)
 			lv.Value += rv.Value
